@@ -590,6 +590,20 @@ class FnArr(_Generic):
         return (self.n,)
 
 
+def _split_conj(f):
+    """ForAll xs. A => (c1 and ... and cn)  -->  [ForAll xs. A => c1, ...] (smaller, more stable queries)"""
+    if z3.is_quantifier(f) and f.is_forall():
+        body = f.body()
+        if z3.is_implies(body) and z3.is_and(body.arg(1)) and body.arg(1).num_args() > 1:
+            vs = [z3.Const(f.var_name(i), f.var_sort(i)) for i in range(f.num_vars())]
+            out = []
+            for c in body.arg(1).children():
+                b = z3.substitute_vars(z3.Implies(body.arg(0), c), *reversed(vs))
+                out.append(z3.ForAll(vs, b))
+            return out
+    return [f]
+
+
 class InvSpec:
     """contract-side description of a loop verified by induction: program variables that the loop changes (state), ghost
     functions, the invariant as named clauses, and the ghost update"""
@@ -646,7 +660,8 @@ def run_invariant_loop(interp, st, env, n, bind_at, spec, label="loop"):
     S1 = {v: o.f for v, o in objs.items()}
     G1 = spec.ghost_step(k, S, S1, G)
     for nm, f in spec.inv(k + 1, S1, G1):
-        cx.oblige(f"inv.preserve.{label}.{nm}", f, kind="inv")
+        for j, part in enumerate(_split_conj(f)):
+            cx.oblige(f"inv.preserve.{label}.{nm}" + (f".{j}" if j else ""), part, kind="inv")
     del cx.pc[n_pc:]
     cx._solver = None
     S2 = {v: FnArr.fresh_fn(f"{v}@exit!{u}", s) for v, s in spec.state.items()}
@@ -662,3 +677,73 @@ def run_invariant_loop(interp, st, env, n, bind_at, spec, label="loop"):
             for t in (node.targets if isinstance(node, ast.Assign) else [node.target]):
                 if isinstance(t, ast.Name) and t.id not in spec.state and env.has(t.id):
                     _set(env, t.id, Poison(f"loop-local {t.id} after an invariant loop"))
+
+
+class PermSeq(_Generic):
+    """np.argsort(values): a permutation sigma of the row positions [0,n) (with inverse rk) that sorts the values ascending;
+    [::-1] reverses it (descending).  Iterating it with an InvSpec registered in ctx.inv_specs['perm'] runs an invariant loop."""
+
+    def __init__(self, n, sigma, rk, key, ascending=True):
+        self.n, self.sigma, self.rk, self.key, self.ascending = n, sigma, rk, key, ascending
+
+    @staticmethod
+    def argsort(vec):
+        from .frames import RowPos
+        cx = ctx()
+        u = next(cx.counter)
+        S = z3.Function(f"sigma!{u}", z3.IntSort(), z3.IntSort())
+        R = z3.Function(f"rank!{u}", z3.IntSort(), z3.IntSort())
+        pv = RowPos(vec.space).val.t
+        vt = real(to_z3(vec.val))
+        key = lambda i: z3.substitute(vt, (pv, i))
+        n = to_z3(vec.space.n)
+        cx.axiom("np.argsort contract: sigma is a permutation of [0,n) with inverse rank, values at sigma(0), sigma(1), ... ascending",
+                 z3.And(*PermSeq.axioms(n, lambda x: S(x), lambda x: R(x), key, True)))
+        return PermSeq(vec.space.n, lambda t: S(t), lambda t: R(t), key, True)
+
+    @staticmethod
+    def axioms(n, S, R, key, ascending):
+        a, b, i = z3.Ints("a!ps b!ps i!ps")
+        le = (lambda x, y: x <= y) if ascending else (lambda x, y: x >= y)
+        return [z3.ForAll([a], z3.Implies(z3.And(a >= 0, a < n), z3.And(S(a) >= 0, S(a) < n, R(S(a)) == a))),
+                z3.ForAll([i], z3.Implies(z3.And(i >= 0, i < n), z3.And(R(i) >= 0, R(i) < n, S(R(i)) == i))),
+                z3.ForAll([a, b], z3.Implies(z3.And(a >= 0, a <= b, b < n), le(key(S(a)), key(S(b)))))]
+
+    def __getitem__(self, k):
+        if isinstance(k, slice) and k.start is None and k.stop is None and k.step == -1:
+            # reversed view: sigma'(a) = sigma(n-1-a), rank'(i) = n-1-rank(i).  Named by fresh functions defined pointwise; the
+            # permutation/sortedness facts of the reversed view are *obligations* (derived from the argsort contract), then used as facts
+            cx = ctx()
+            u = next(cx.counter)
+            n, s, r = to_z3(self.n), self.sigma, self.rk
+            S2 = z3.Function(f"sigma_rev!{u}", z3.IntSort(), z3.IntSort())
+            R2 = z3.Function(f"rank_rev!{u}", z3.IntSort(), z3.IntSort())
+            t = z3.Int(f"t!{u}")
+            defs = [z3.ForAll([t], S2(t) == s(n - 1 - t)), z3.ForAll([t], R2(t) == n - 1 - r(t))]
+            axs = PermSeq.axioms(n, lambda x: S2(x), lambda x: R2(x), self.key, not self.ascending)
+            nh = len(cx.hyps)
+            cx.hyps.extend(defs)
+            for j, ax in enumerate(axs):
+                for jj, part in enumerate(_split_conj(ax)):
+                    cx.oblige(f"model.reversed_argsort.{['permutation', 'inverse', 'sorted'][j]}.{jj}", part, kind="model")
+            del cx.hyps[nh:]  # the pointwise definitions are used for these obligations only; afterwards the derived facts stand for the view
+            for ax in axs:
+                cx.assume(ax)
+            return PermSeq(self.n, lambda x: S2(x), lambda x: R2(x), self.key, not self.ascending)
+        raise Unsupported("indexing of an argsort result")
+
+    def __sym_len__(self):
+        return self.n
+
+    def __generic_for__(self, interp, st, env):
+        import ast
+        cx = ctx()
+        mk = getattr(cx, "inv_spec_factory", None)
+        if mk is None or not isinstance(st.target, ast.Name):
+            raise Unsupported("loop over an argsort result without an invariant")
+        spec = mk(self, env)
+        name = st.target.id
+
+        def bind_at(e, k):
+            e.vars[name] = SV(self.sigma(k))
+        run_invariant_loop(interp, st, env, self.n, bind_at, spec, label="greedy")
